@@ -107,6 +107,12 @@ type VerifSim struct {
 	// group coordinator (sim_group.go)
 	GroupScript VerifSimGroupScript
 	GroupGhosts int
+	// GroupFollower: the real member is a follower (a ghost leads); it is assigned GroupFollowerParts of GroupFollowerTopic
+	GroupFollower      bool
+	GroupFollowerTopic string
+	GroupFollowerParts []int32
+	// MetaDelayMs delays every metadata answer (client-close scenarios)
+	MetaDelayMs int
 	groups      map[string]*simGroup
 	groupReqs   []VerifSimGroupReq
 	groupSeq    int
@@ -239,6 +245,9 @@ func (b *simBroker) serve(c net.Conn) {
 		switch body := req.body.(type) {
 		case *MetadataRequest:
 			res, closeAfter = b.sim.metadata(body)
+			if d := b.sim.MetaDelayMs; d > 0 {
+				delay = d
+			}
 		case *ProduceRequest:
 			res, closeAfter, delay = b.sim.produce(b.id, body, n)
 			if body.RequiredAcks == NoResponse && !closeAfter {
